@@ -9,7 +9,7 @@ import (
 func TestC10(t *testing.T) {
 	prop := vh.PropEnv("C10")
 	r := vh.New(t, prop, "hist")
-	r.Shard = 6
+	r.Shard = 5
 	r.Coq("From Verif Require Import Base.Effects Calcium.World Calcium.Ops Calcium.Run.", "Run.case", "Run.agree", okFn(prop))
 	kinds := []string{"create", "create", "create", "remove", "remove", "dissociate", "realloc", "realloc", "replace", "setnode", "addnode", "removenode"}
 	if prop == "C12" {
@@ -64,7 +64,7 @@ func TestC10(t *testing.T) {
 	}
 
 	// ---- random histories
-	n := r.N(47, 1200)
+	n := r.N(15, 1200)
 	for i := 0; i < n; i++ {
 		strict := r.Rng.Intn(2) == 0
 		d := newDriver(t, r.Rng, strict)
